@@ -354,6 +354,15 @@ def check_C13(tier):
     for v in vs[:: max(1, len(vs) // 2)][:2]:
         rep.sample({"input": "".join(v["inp"]), "expect": [v["kind"], v["out"]]})
     judge_mismatches(rep, "nop", mism, "default", False, default_classify)
+    # the same with compatible=True (the [nop] filter sits next to the compatibility mapping)
+    results, vectors_c = de.run_decoder_tlc("nop_compat", NOP_ALPHA[:7] + ["[Branch1_2]", "[Expl=Ring1]"], "default", n - 1,
+                                            compat=True, emit=True, invariants=["NopInvisible"], fastjit=quick)
+    add_results(rep, "nop_compatible", results, max_symbols=n - 1, vectors=len(vectors_c))
+    vsc = [v for v in vectors_c if "[nop]" in v["inp"]]
+    mism = de.replay_decoder_vectors(vsc, "default", True)
+    mism += de.replay_decoder_vectors([dict(v, inp=[t for t in v["inp"] if t != "[nop]"]) for v in vsc], "default", True)
+    rep.traces += 2 * len(vsc)
+    judge_mismatches(rep, "nop_compat", mism, "default", True, default_classify)
     # long strings with random [nop] insertion + padding through the encoding utilities
     rng = random.Random(seed() * 31 + 13)
     sf = de.selfies_mod()
